@@ -11,6 +11,7 @@ import (
 	"os"
 	"reflect"
 	"runtime"
+	"strings"
 	"sync"
 	"sync/atomic"
 	"time"
@@ -41,7 +42,8 @@ type EdfCase struct {
 
 type HostLine struct {
 	P  int    `json:"p"`
-	Ev string `json:"ev"` // live | edf
+	Ev string `json:"ev"` // live | edf | hs
+	H  HsCase `json:"h"`
 	// live
 	L         LiveCase `json:"l"`
 	Injected  int      `json:"injected"`  // bytes
@@ -520,6 +522,7 @@ func (r *HostRunner) RunEdf(c *EdfCase) error {
 type HostScript struct {
 	Live []LiveCase `json:"live"`
 	Edf  []EdfCase  `json:"edf"`
+	Hs   []HsCase   `json:"hs"`
 }
 
 func LoadHostScript(path string) (*HostScript, error) {
@@ -554,4 +557,128 @@ func hasZeroSizeElems(t reflect.Type, depth int) bool {
 		}
 	}
 	return false
+}
+
+// ---- handshake messages altered on the path -----------------------------------------------
+
+// HsCase: an attacker between two honest nodes rewrites one handshake message of the dialer (nothing but salt and cookie is covered by
+// the digests, so the content can be changed without knowing the cookie).
+type HsCase struct {
+	ID  int    `json:"id"`
+	Dir string `json:"dir"` // up (default: messages of the dialer: 1 = Hello, 2 = Introduce) | down (messages of the acceptor: 1 = Hello, 2 = Accept, 3 = Introduce)
+	Msg int    `json:"msg"` // which message of the first link in that direction
+	Mut string `json:"mut"` // none | flip (byte at offset Arg of the payload) | nilerr (an entry of the error cache becomes the nil error) | cut (payload cut to Arg bytes, length adjusted)
+	Arg int    `json:"arg"`
+}
+
+// rewriteHs applies the mutation to one complete handshake frame (magic, version, 32-bit length, payload)
+func rewriteHs(c *HsCase, m []byte) ([]byte, bool) {
+	if len(m) < 7 || int(binary.BigEndian.Uint32(m[2:6]))+6 != len(m) {
+		return m, false
+	}
+	pl := m[6:]
+	switch c.Mut {
+	case "flip":
+		if c.Arg >= len(pl) {
+			return m, false
+		}
+		pl[c.Arg] ^= 0xff
+		return m, true
+	case "cut":
+		if c.Arg >= len(pl) {
+			return m, false
+		}
+		out := append([]byte{}, m[:6+c.Arg]...)
+		binary.BigEndian.PutUint32(out[2:6], uint32(c.Arg))
+		return out, true
+	case "nilerr":
+		// an error travels as 16-bit length + text; 0xffff stands for the nil error
+		pat := append([]byte{0, byte(len(gen.ErrTimeout.Error()))}, gen.ErrTimeout.Error()...)
+		i := strings.Index(string(pl), string(pat))
+		if i < 0 {
+			return m, false
+		}
+		np := append(append(append([]byte{}, pl[:i]...), 0xff, 0xff), pl[i+len(pat):]...)
+		out := append(append([]byte{}, m[:6]...), np...)
+		binary.BigEndian.PutUint32(out[2:6], uint32(len(np)))
+		return out, true
+	}
+	return m, c.Mut == "none"
+}
+
+func (r *HostRunner) RunHs(c *HsCase) error {
+	r.seq++
+	tag := fmt.Sprintf("%d_%d", os.Getpid()%10000, r.seq)
+	p, err := StartPair(NodeOpts{Name: "sa" + tag + "@localhost", Cookie: "ck", PoolSize: 1, Flags: netFlags},
+		NodeOpts{Name: "sb" + tag + "@localhost", Cookie: "ck", PoolSize: 1, Flags: netFlags})
+	if err != nil {
+		return err
+	}
+	defer p.Stop()
+	wn, whs, err := StartNode(NodeOpts{Name: "sw" + tag + "@localhost", Cookie: "ck", PoolSize: 1, Flags: netFlags})
+	if err != nil {
+		return err
+	}
+	defer wn.StopForce()
+	port, _ := AcceptorPort(p.B)
+	wn.Network().AddRoute(string(p.B.Name()), gen.NetworkRoute{Route: gen.Route{Host: "127.0.0.1", Port: port, HandshakeVersion: whs.Version()}}, 100)
+	if _, err := wn.Network().GetNode(p.B.Name()); err != nil {
+		return fmt.Errorf("witness connect: %w", err)
+	}
+	wa := &obsWorld{notes: map[gen.PID][]Note{}}
+	wb := &obsWorld{notes: map[gen.PID][]Note{}}
+	mk := func() gen.ProcessBehavior { return &worker{} }
+	victim, _ := p.B.Spawn(mk, gen.ProcessOptions{}, wb)
+	local2, _ := p.B.Spawn(mk, gen.ProcessOptions{}, wb)
+	wuser, _ := wn.Spawn(mk, gen.ProcessOptions{}, wa)
+	line := HostLine{P: c.ID, Ev: "hs", H: *c}
+	var mu sync.Mutex
+	seen := 0
+	rewrite := func(link int, chunk []byte) []byte {
+		if link != 0 {
+			return chunk
+		}
+		mu.Lock()
+		defer mu.Unlock()
+		seen++
+		if seen != c.Msg {
+			return chunk
+		}
+		orig := string(chunk)
+		out, ok := rewriteHs(c, chunk)
+		line.Found = ok
+		line.Injected = len(out)
+		line.Changed = string(out) != orig
+		return out
+	}
+	if c.Dir == "down" {
+		p.Relay.RewriteDown = rewrite
+	} else {
+		p.Relay.RewriteUp = rewrite
+	}
+	_, cerr := p.Connect("ck")
+	line.ConnUp = cerr == nil
+	time.Sleep(20 * time.Millisecond)
+	probe := func(n gen.Node, from gen.PID, what string) string {
+		res := "hang"
+		done := make(chan struct{})
+		go func() {
+			run(n, from, 3*time.Second, func(pr gen.Process) {
+				_, err := pr.CallWithTimeout(victim, what, 2)
+				res = errText(err)
+			})
+			close(done)
+		}()
+		select {
+		case <-done:
+		case <-time.After(4 * time.Second):
+		}
+		return res
+	}
+	line.Local = probe(p.B, local2, "local")
+	line.Witness = probe(wn, wuser, "witness")
+	line.NodeOK = line.Local == "ok"
+	r.emit(&line)
+	r.Cases++
+	return nil
 }
